@@ -226,7 +226,8 @@ class TCPPacketGenerator(Device, OutMixIn):
         if self.flow.start_time:
             yield env.timeout(self.flow.start_time)
 
-        while env.now < self.flow.finish_time:
+        # a flow without a finish time (the default) never expires
+        while self.flow.finish_time is None or env.now < self.flow.finish_time:
             # all bytes in flow has been received
             if self.flow.size and self.next_seq >= self.flow.size:
                 return
